@@ -260,7 +260,11 @@ Definition is_cell_sp (s : sp) : bool := match s with Mem | Sto | Tra => true | 
 
 (* A: address of each allocation, asz: its size.  Distinct allocations are disjoint regions below 2^256: the
    allocator's obligation (C04 concretize_interfering_disjoint), assumed here as in MemLocSound.v *)
+(* commutative EVM operations (vyper/venom/basicblock.py COMMUTATIVE_INSTRUCTIONS without the non-EVM `smul`) *)
+Definition COMM_OPS : list string := ["add"; "mul"; "or"; "xor"; "and"; "eq"].
+
 Record exact (X : oracle) (A asz : Z -> Z) : Prop := {
+  ex_comm : forall op a b t v, is_in op COMM_OPS = true -> o_outs (X op [a; b] t v) = o_outs (X op [b; a] t v);
   ex_assign : forall a t v, o_outs (X "assign" [a] t v) = [a];
   ex_add : forall a b t v, o_outs (X "add" [b; a] t v) = [(a + b) mod W];
   ex_sub : forall a b t v, o_outs (X "sub" [b; a] t v) = [(a - b) mod W];
